@@ -101,6 +101,13 @@ pub fn literals() -> Vec<Route> {
         literal_route(10000.0, 30.0, vec![mk_limit(100.0, 200.0, 25.0), mk_limit(500.0, 500.0, 10.0)], "zero_len_after_last"),
         // zero-length restriction at an existing point
         literal_route(10000.0, 30.0, vec![mk_limit(100.0, 200.0, 25.0), mk_limit(200.0, 200.0, 10.0)], "zero_len_at_point"),
+        // a slow order from the very start of the route, posted as two (three) abutting sections of the SAME speed: the
+        // profile has exactly two points when the second section is inserted
+        literal_route(10000.0, 30.0, vec![mk_limit(0.0, 100.0, 10.0), mk_limit(100.0, 300.0, 10.0)], "abutting_equal_at_start"),
+        literal_route(10000.0, 30.0, vec![mk_limit(0.0, 100.0, 10.0), mk_limit(100.0, 300.0, 10.0), mk_limit(300.0, 450.0, 10.0)], "three_abutting_equal_at_start"),
+        literal_route(10000.0, 30.0, vec![mk_limit(0.0, 100.0, 10.0), mk_limit(100.0, 300.0, 10.0), mk_limit(2000.0, 2500.0, 12.0)], "abutting_equal_at_start_then_other"),
+        // the same pair in the middle of the route
+        literal_route(10000.0, 30.0, vec![mk_limit(1000.0, 1100.0, 10.0), mk_limit(1100.0, 1300.0, 10.0)], "abutting_equal_mid_route"),
     ]
 }
 
